@@ -770,6 +770,23 @@ func (c *Cluster) ByzAct() {
 					v = hp.FullData
 				}
 			}
+			if rng.Intn(6) == 0 {
+				// pad the justification with what the missing correct operators broadcast for this round NUMBER at a neighbouring
+				// height of the same validator and role (recorded there by the adversary): unprepared round-changes
+				hOther := h + 1
+				if h > 0 {
+					hOther = h - 1
+				}
+				have := map[spectypes.OperatorID]bool{}
+				for _, m := range rcs {
+					have[m.Signers[0]] = true
+				}
+				for _, n := range c.Honest() {
+					if !have[n.ID] {
+						rcs = append(rcs, c.MkUnpreparedRCAt(n, hOther, r))
+					}
+				}
+			}
 		}
 		if len(rcs) > 13 {
 			rcs = rcs[:13]
